@@ -402,7 +402,7 @@ where
     futures::future::join_all(futs).await.join(",")
 }
 
-fn exec_validate(req: &str) -> String {
+pub fn exec_validate(req: &str) -> String {
     let t: Vec<&str> = req.split(' ').collect();
     let (api, ty) = (t[1].to_string(), t[2]);
     let count: usize = t[3].parse().unwrap();
